@@ -258,7 +258,7 @@ func (cs *autoGrowingCallFrameStack) IsEmpty() bool {
 
 // IsFull returns true if the stack cannot receive any more stack pushes without overflowing
 func (cs *autoGrowingCallFrameStack) IsFull() bool {
-	return int(cs.segIdx) == len(cs.segments) && cs.segSp >= FramesPerSegment
+	return int(cs.segIdx) == len(cs.segments)-1 && cs.segSp >= FramesPerSegment
 }
 
 func (cs *autoGrowingCallFrameStack) Clear() {
@@ -305,6 +305,10 @@ func (cs *autoGrowingCallFrameStack) Sp() int {
 // SetSp can be used to rapidly unwind the stack, freeing all stack frames on the way. It should not be used to
 // allocate new stack space, use Push() for that.
 func (cs *autoGrowingCallFrameStack) SetSp(sp int) {
+	if sp >= cs.Sp() {
+		// nothing to unwind; in particular a full last segment is (segIdx, FramesPerSegment), not (segIdx+1, 0)
+		return
+	}
 	desiredSegIdx := segIdx(sp / FramesPerSegment)
 	desiredFramesInLastSeg := uint8(sp % FramesPerSegment)
 	for {
